@@ -548,6 +548,34 @@ func runSequences(baseline map[string]string) []Record {
 		os.RemoveAll(prot + "/seq3target-" + tag)
 		os.RemoveAll(base3)
 	}
+	// (4) a protected top-level directory that does not exist (yet): a minimal image without
+	// /boot or /sbin. A read-write open below it would create it; every spelling is refused
+	// and nothing appears
+	os.Chdir("/")
+	os.Symlink("/", "/work/seq4-rootlink")
+	for _, prot := range []string{"/boot", "/sbin"} {
+		aside := "/work/seq4-aside-" + prot[1:]
+		if err := os.Rename(prot, aside); err != nil {
+			id++
+			out = append(out, Record{Case: Case{ID: id, Spelling: Spelling{Path: prot, Cwd: "/", Fam: "sequence"}}, Verdict: "held", Class: "sequence/protected-dir-absent/rw", Skipped: "sequence-setup: " + err.Error()})
+			continue
+		}
+		for _, sp := range []string{prot + "/sigs.db", "/." + prot + "//fresh.db", prot[1:] + "/rel.db", "work/../" + prot[1:] + "/dd.db", "/work/seq4-rootlink" + prot + "/via-link.db"} {
+			o, r, e := open(sp, false)
+			_, lerr := os.Lstat(prot)
+			id++
+			rec := Record{Case: Case{ID: id, Spelling: Spelling{Path: sp, Cwd: "/", Fam: "sequence"}}, Inside: prot, Opened: o, Refused: r, Err: e, Verdict: "held", Class: "sequence/protected-dir-absent/rw"}
+			if !r || lerr == nil {
+				rec.Verdict, rec.Key = "violated", "not-refused/protected-dir-absent"
+				rec.What = fmt.Sprintf("%s does not exist; a read-write open of %q (cwd /) lies inside it and was not refused as a security violation (opened=%v, err=%q, %s exists afterwards: %v)", prot, sp, o, e, prot, lerr == nil)
+			}
+			out = append(out, rec)
+			os.RemoveAll(prot)
+		}
+		os.RemoveAll(prot)
+		os.Rename(aside, prot)
+	}
+	os.Remove("/work/seq4-rootlink")
 	return out
 }
 
